@@ -96,6 +96,8 @@ def run(ctx):
                       "the run loop has %d execute sites (expected exactly 1): stepping must not use a second interpreter path" % len(ex_blocks))
     callers = set(ctx.cg.callers(EXEC))
     allowed = {rl.name, "lace::debugger::eval::eval_inner"}
+    if "lace::debugger::eval::eval_inner" not in ctx.prog.fns:
+        allowed.add("lace::debugger::eval::eval")          # eval and its inner routine are one piece of code
     for c in sorted(callers - allowed):
         ctx.violation("caller=%s" % short(c), ctx.prog.fns[c].file_line() if c in ctx.prog.fns else "-",
                       "`%s` calls RunState::execute; only the run loop and eval may execute instructions" % short(c))
